@@ -1,0 +1,45 @@
+//go:build verif
+
+package cache
+
+import "time"
+
+// VerifPruneAge runs the age based prune synchronously, as the timer would.
+func (c *Cache[k, v]) VerifPruneAge() {
+	if c == nil {
+		return
+	}
+	c.pruneAge()
+}
+
+// VerifPruneCount runs the count based prune synchronously, as the goroutine started by Set would.
+func (c *Cache[k, v]) VerifPruneCount() {
+	if c == nil {
+		return
+	}
+	c.pruneCount()
+}
+
+// VerifSetUsed overrides the last-used time of an entry.
+func (c *Cache[k, v]) VerifSetUsed(key k, t time.Time) bool {
+	if c == nil {
+		return false
+	}
+	c.mu.Lock()
+	defer c.mu.Unlock()
+	e, ok := c.entries[key]
+	if ok {
+		e.used = t
+	}
+	return ok
+}
+
+// VerifLen returns the number of entries.
+func (c *Cache[k, v]) VerifLen() int {
+	if c == nil {
+		return 0
+	}
+	c.mu.Lock()
+	defer c.mu.Unlock()
+	return len(c.entries)
+}
